@@ -18,15 +18,76 @@ def units(ctx):
     f.ens("is_negated(res, *self)")
     f.opt(subst=[("|c|", "|c: &R|", "R7-closure-param-type")], hoist=True)
     f.closure(1, ret="y: R", ensures=["y@ == -(*c)@"])
-    return [u, u2]
+    return [u, u2, fft_helpers()]
+
+
+def fft_helpers():
+    """the integer / padding helper of the FFT path: pad_power_of_two (the transforms themselves stay trusted stubs)"""
+    h = Unit("C11", "fft_helpers", preludes=("real", "stdx"), cfg=cfg())
+    h.item(PFILE, "struct", "Polynomial")
+    h.spec(POLY_SPEC)
+    h.spec(r"""
+pub open spec fn is_pow2(p: int) -> bool decreases p { if p <= 0 { false } else if p == 1 { true } else { p % 2 == 0 && is_pow2(p / 2) } }
+""")
+    im = h.impl(PFILE, "Polynomial<N>", header="impl Polynomial", keep_assoc=False)
+    f = im.fn("pad_power_of_two")
+    f.req("old(self).coefficients@.len() >= 1", "size <= 0x4000_0000usize", "old(self).coefficients@.len() <= 0x4000_0000usize")
+    f.ens("final(self).tolerance == old(self).tolerance",
+          # padding never changes the polynomial: every coefficient (0 beyond the stored ones) is kept
+          "forall|k: int| coef(final(self).coefficients@, k) == coef(old(self).coefficients@, k)",
+          # the new length is the old one or the smallest power of two >= size, whichever is larger
+          "final(self).coefficients@.len() >= size && final(self).coefficients@.len() >= old(self).coefficients@.len()",
+          "exists|p: int| #![trigger is_pow2(p)] is_pow2(p) && p >= size && (p == 1 || p / 2 < size) "
+          "&& final(self).coefficients@.len() as int == (if old(self).coefficients@.len() >= p { old(self).coefficients@.len() as int } else { p })")
+    f.loop(1, invariant=["power >= 1", "is_pow2(power as int)", "power <= 0x8000_0000usize", "size <= 0x4000_0000usize", "power == 1 || power / 2 < size"],
+           decreases="0x1_0000_0000int - power")
+    f.hint("before: power <<= 1", "proof { assert(power << 1usize == 2 * power) by(bit_vector) requires power < 0x4000_0000usize; }")
+    f.loop(2, invariant=["self.coefficients@.len() >= old(self).coefficients@.len()", "self.tolerance == old(self).tolerance", "power <= 0x8000_0000usize",
+                          "self.coefficients@.len() <= (if old(self).coefficients@.len() >= power { old(self).coefficients@.len() as int } else { power as int })",
+                          "forall|k: int| coef(self.coefficients@, k) == coef(old(self).coefficients@, k)"],
+           decreases="power - self.coefficients@.len()")
+    h.spec(r"""
+pub open spec fn pow2i(n: int) -> int decreases n { if n <= 0 { 1 } else { 2 * pow2i(n - 1) } }
+// the j lowest bits of k, reversed, read as a j-bit number: bit (j-1-i) of brev(k, j) is bit i of k
+pub open spec fn brev(k: int, j: int) -> int decreases j { if j <= 0 { 0 } else { 2 * brev(k, j - 1) + (k / pow2i(j - 1)) % 2 } }
+pub proof fn lemma_brev_bound(k: int, j: int) requires k >= 0, j >= 0 ensures 0 <= brev(k, j) < pow2i(j) decreases j
+{ if j > 0 { lemma_brev_bound(k, j - 1); } }
+pub proof fn lemma_pow2i_mono(a: int, b: int) requires 0 <= a <= b ensures 1 <= pow2i(a) <= pow2i(b) decreases b
+{ if b > a { lemma_pow2i_mono(a, b - 1); } else if a > 0 { lemma_pow2i_mono(a - 1, a - 1); } }
+""")
+    g = h.fn(PFILE, "bit_reverse")
+    g.req("num_bits <= 30")
+    # the result is the num_bits-bit reversal of k, hence an index below 2^num_bits (what bit_reverse_copy indexes with)
+    g.ens("res == brev(k_0 as int, num_bits as int)", "res < pow2i(num_bits as int)")
+    g.hint("before: let mut result", "let ghost k0 = k; proof { assert(pow2i(30) == 0x4000_0000) by(compute_only); }")
+    g.loop(1, iter="it", invariant=["result == 2 * brev(k0 as int, it.index@)", "k == k0 as int / pow2i(it.index@)", "num_bits <= 30", "pow2i(30) == 0x4000_0000", "0 <= it.index@ <= num_bits"])
+    g.hint("loop 1 begin", """proof {
+            let i = it.index@;
+            lemma_brev_bound(k0 as int, i); lemma_pow2i_mono(i, 29); lemma_pow2i_mono(29, 30);
+            assert(pow2i(30) == 2 * pow2i(29));
+            let r = result; let kk = k;
+            assert(r & 1 == 0 ==> (r | (kk & 1)) == r + kk % 2) by(bit_vector);
+            assert(r % 2 == 0 ==> r & 1 == 0) by(bit_vector);
+            let t = (r | (kk & 1)) as usize;
+            assert(t < 0x4000_0000usize ==> t << 1usize == 2 * t) by(bit_vector);
+            assert(kk >> 1usize == kk / 2) by(bit_vector);
+            assert(k0 as int / pow2i(i + 1) == (k0 as int / pow2i(i)) / 2) by(nonlinear_arith) requires pow2i(i + 1) == 2 * pow2i(i), pow2i(i) >= 1, k0 >= 0;
+        }""")
+    g.hint("before: result >>= 1", "proof { let r = result; assert(r >> 1usize == r / 2) by(bit_vector); lemma_brev_bound(k0 as int, num_bits as int); }")
+    return h
 
 
 DECIDED = [
     "all 9 Add / 9 Sub forms (owned, borrowed, assigning; scalar and polynomial right operands): coefficient k of the result is a_k +/- b_k for every k, length of the longer operand, tolerance of the left operand",
     "Mul<N>, Div<N>, MulAssign<N>, DivAssign<N>, Neg (owned and borrowed): every coefficient scaled / divided / negated, length and tolerance kept",
+    "pad_power_of_two (unit fft_helpers; what dft() prepares its input with): the polynomial is unchanged -- every coefficient, read as 0 beyond the stored ones, is kept, tolerance kept -- and the new length "
+    "is the larger of the old length and the SMALLEST power of two >= size (bit-vector reasoning for `power <<= 1`; sizes up to 2^30)",
+    "bit_reverse (unit fft_helpers): the result is the num_bits-bit reversal of k (recursive specification brev: bit j-1-i of the result is bit i of k) and therefore an index below 2^num_bits (num_bits <= 30; "
+    "or / shift / mask steps by bit-vector reasoning)",
     "multiply(): scalar paths and both linear-factor paths return exactly the stated combination, which is proved to be the convolution sum_{i} a_i b_{k-i} (lemma_exact_paths_are_convolution); all Mul/MulAssign forms dispatch to it",
 ]
 NOT_DECIDED = [
+    "bit_reverse_copy (its num_bits comes from a float log2), dft, idft: not under contract",
     "the FFT path of multiply() (both operands of degree >= 2): dft/idft are trusted stubs that promise only a non-empty result; nothing about the product's coefficients, degree, commutativity or the DFT/inverse-DFT identities is decided",
     "complex coefficients (the pinned tree conjugated complex FFT products through sqrt(-1-0i) = -i: invisible to the contracts, found by the bounded witness probe witness/src/bin/c11.rs and fixed upstream-style)",
     "rounding bound proportional to machine epsilon",
